@@ -164,7 +164,7 @@ package server
 //@   requires [ctx] c != nil
 //@   requires [registry] dispatchersOK()
 //@   requires [nolocks] nolocks()
-//@   modifies lru.Cache::view, lru.Cache::dom, c.StatusCode, c.BodyBuffer, $hdr, $bytes
+//@   modifies lru.Cache::view, lru.Cache::dom, c.StatusCode, c.BodyBuffer, $hdr, $bytes, $deletes
 //@   ensures [nokey] queryParam(c, "key") == "" ==> err != nil && (forall l *lru.Cache :: l.view == old(l.view) && l.dom == old(l.dom))
 //@   ensures [ok]    queryParam(c, "key") != "" ==> err == nil
 
